@@ -438,6 +438,12 @@ fn start_server(exe: &Path, root: &Path, mode: usize, verbose: bool) -> Result<S
                 if ok {
                     let _ = c.send(&Pdu::ReleaseRq);
                     let _ = c.recv();
+                    // the association must have been answered by OUR child, which is then still alive
+                    std::thread::sleep(Duration::from_millis(30));
+                    if let Some(st) = p.exited() {
+                        last = format!("tool exited right after start-up: {st}");
+                        break;
+                    }
                     return Ok(Server { _proc: p, port, root: root.to_path_buf(), baseline: tree::snapshot(root) });
                 }
             }
